@@ -101,7 +101,8 @@ def generate(r, in_fn, allow_exempt=False):
     new_object()
     for _ in range(r.randint(6, 30)):
         act = r.choice(["new", "alias", "hold", "key", "box", "mut", "mut", "mut", "mut", "eq", "eq", "hhas", "mhas", "len",
-                        "boxeq", "capture", "tuple", "observer", "fobs", "fobs", "fmut", "viaholder", "viabox"])
+                        "boxeq", "capture", "tuple", "observer", "fobs", "fobs", "fmut", "viaholder", "viabox", "growcall",
+                        "growcall"])
         names = list(variables)
         a = r.choice(names)
         o = variables[a]
@@ -135,6 +136,20 @@ def generate(r, in_fn, allow_exempt=False):
             text = mutate_list(a, o)
             if text:
                 body.append(text)
+        elif act == "growcall" and o.kind == "list":
+            # the mutation happens in a callee frame while this frame keeps its aliases; the list comes back as a new alias
+            x = r.randint(10, 99)
+            name = "a%d" % len(variables)
+            variables[name] = o
+            body.append("let %s = grow(%s, %d);" % (name, a, x))
+            o.items.append(x)
+            if len(o.items) > o.cap:
+                if not o.grown:
+                    stats["grown"] += 1
+                o.grown = True
+                while o.cap < len(o.items):
+                    o.cap *= 2
+            observe("%s == %s" % (a, name), "true", [o], stack_only=True)
         elif act == "viaholder" and holder:
             i = r.randrange(len(holder))
             target = holder[i]
@@ -230,6 +245,7 @@ def generate(r, in_fn, allow_exempt=False):
     header = [
         "class Box { init(v) { self.v = v; } }",
         "fn mkgetter(x) { || x }",
+        "fn grow(l, v) { l.push(v); l }",
         "fn observer(x, ask, answer) { let q = <- ask; while q != nil { if q[0] == 'len' { if x.cls() == Box { answer <- x.v; } else { answer <- x.len(); } } if q[0] == 'same' { answer <- (x == q[1]); } if q[0] == 'push' { x.push(q[1]); answer <- true; } if q[0] == 'set' { x.v = q[1]; answer <- true; } q = <- ask; } }",
     ]
     if in_fn:
